@@ -74,6 +74,100 @@ pub fn eval_c01(st: &State) -> Eval {
     e
 }
 
+/// Large states (1000+ generators): every cell is built, the measures must tile the box, and a committed subset of the
+/// cells (the first 8, every 97th, the last 8 - the isolated generators of the density-contrast states) is compared
+/// with the oracle in full (volume, centroid, vertices, complete face list).
+/// C02 on large states: tiling through both routes.
+pub fn eval_c02_large(st: &State) -> Eval {
+    let mut e = Eval::default();
+    let check = "c02";
+    let case = st.id.clone();
+    let bm = st.box_measure();
+    match build_voronoi(st, None) {
+        Err(p) => panic_issue(&mut e, check, st, &case, &[], &p, "Voronoi::build"),
+        Ok(v) => {
+            e.impl_runs += 1;
+            let total: f64 = v.cells().iter().map(|c| c.volume()).sum();
+            let min = v.cells().iter().map(|c| c.volume()).fold(f64::INFINITY, f64::min);
+            if !((total - bm).abs() <= 1e-9 * bm) {
+                e.issue("total-measure(Voronoi)", &case, format!("sum of {} cell measures {:e} != box measure {:e}", st.n(), total, bm), replay_text(check, st, &[]));
+            }
+            if !(min > 0.) {
+                e.issue("cell-measure-not-positive", &case, format!("smallest cell measure {:e}", min), replay_text(check, st, &[]));
+            }
+        }
+    }
+    match build_integrator(st, None) {
+        Err(p) => panic_issue(&mut e, check, st, &case, &[], &p, "VoronoiIntegrator::build"),
+        Ok(i) => {
+            e.impl_runs += 1;
+            let vols = i.compute_cell_integrals::<VolumeIntegral>();
+            let total: f64 = vols.iter().map(|c| c.volume).sum();
+            if vols.len() != st.n() || !((total - bm).abs() <= 1e-9 * bm) || vols.iter().any(|c| !(c.volume > 0.)) {
+                e.issue("total-measure(VolumeIntegral)", &case, format!("{} cells, sum of VolumeIntegral {:e} != box measure {:e}", vols.len(), total, bm), replay_text(check, st, &[]));
+            }
+        }
+    }
+    e.sig = st.n() as u64;
+    e.nontrivial = true;
+    e.transitions = st.n() as u64;
+    e
+}
+
+pub fn eval_c01_large(st: &State) -> Eval {
+    let mut e = Eval::default();
+    let check = "c01";
+    let case = st.id.clone();
+    let t = tol(st);
+    let n = st.n();
+    let x0 = exact_calls_thread();
+    let subset: Vec<usize> = (0..n).filter(|&q| q < 8 || q % 97 == 0 || q + 8 >= n).collect();
+    match build_integrator(st, None) {
+        Err(p) => panic_issue(&mut e, check, st, &case, &[], &p, "VoronoiIntegrator::build"),
+        Ok(integ) => {
+            e.impl_runs += 1;
+            let vc = integ.compute_cell_integrals::<VolumeCentroidIntegral>();
+            let recs = integ.compute_face_integrals::<FaceRec>();
+            let lf = lib_cell_faces(st, &recs, n);
+            if vc.len() != n {
+                e.issue("cell-count", &case, format!("{} cell integrals for {} generators", vc.len(), n), replay_text(check, st, &[]));
+            } else {
+                let total: f64 = vc.iter().map(|c| c.volume).sum();
+                let bm = st.box_measure();
+                if !((total - bm).abs() <= 1e-9 * bm) || vc.iter().any(|c| !(c.volume > 0.)) {
+                    e.issue("total-measure(large state)", &case, format!("sum of {} cell measures {:e}, box measure {:e}; smallest cell {:e}", n, total, bm, vc.iter().map(|c| c.volume).fold(f64::INFINITY, f64::min)), replay_text(check, st, &[]));
+                }
+                for &i in &subset {
+                    let Some(cell) = integ.get_cell_at(i) else {
+                        e.issue("cell-missing", &case, format!("cell {} not constructed", i), replay_text(check, st, &[]));
+                        continue;
+                    };
+                    let oc = oracle_cell(st, i);
+                    let verts = lib_vertices(cell);
+                    let sg = sigma_min(cell);
+                    compare_cell_with_oracle(&mut e, check, st, &case, &[], i, &oc, &t, vc[i].volume, vc[i].centroid, Some(&lf[i]), Some((&verts, sg)));
+                    e.transitions += oc.faces.len() as u64;
+                }
+            }
+        }
+    }
+    match build_voronoi(st, None) {
+        Err(p) => panic_issue(&mut e, check, st, &case, &[], &p, "Voronoi::build"),
+        Ok(v) => {
+            e.impl_runs += 1;
+            let total: f64 = v.cells().iter().map(|c| c.volume()).sum();
+            let bm = st.box_measure();
+            if !((total - bm).abs() <= 1e-9 * bm) {
+                e.issue("total-measure(large state, Voronoi)", &case, format!("sum of cell measures {:e}, box measure {:e}", total, bm), replay_text(check, st, &[]));
+            }
+        }
+    }
+    e.sig = n as u64;
+    e.nontrivial = true;
+    e.exact_calls = exact_calls_thread() - x0;
+    e
+}
+
 /// Compare the compact tessellation with the oracle: cells, and the face list under the ownership
 /// rule (a face between constructed cells i<j without shift is stored once, with left = i; every
 /// other face of a constructed cell is stored with that cell on the left).
@@ -581,13 +675,17 @@ pub fn eval_c04(st: &State) -> Eval {
                                 if inner < -t.pos {
                                     e.issue("wall-normal-direction", &case, format!("face {}: generator {} lies outside wall {}", fi, l, wk), rp());
                                 }
+                                // (also for a wall through the own generator: the known finding R9 mis-signs triangles of that
+                                // face, which changes its area and moves its centroid *within* the wall plane - the centroid
+                                // stays an affine combination of points of the wall; the area itself can even come out negative on the pinned tree)
                                 let r9 = wall_through_generator(st, l, wk, &t);
-                                if f.area() > t.neg_area && !r9 {
+                                if f.area() > t.neg_area {
                                     let off = (comp(f.centroid(), ax) - coord).abs();
                                     if !(off <= 16. * pg * (1. + t.l.powi(st.dim as i32 - 1) / f.area())) {
                                         e.issue("centroid-off-wall", &case, format!("face {}: centroid {} is {:e} off wall {}", fi, fmt_vec(f.centroid()), off, wk), rp());
                                     }
                                 }
+                                let _ = r9;
                             }
                         }
                         _ => e.issue("boundary-normal-not-axis", &case, format!("boundary face {} has normal {}", fi, fmt_vec(nrm)), rp()),
